@@ -29,7 +29,29 @@ def run_one(prop, tier, seed, overlay=None, write=True, quiet=False, jobs=1):
         return 2
     known = engine.load_known()
     t0 = time.time()
-    ctx, wall = engine.run_property(prop, REGISTRY[prop](tier), tier, overlay=overlay)
+    rules = list(REGISTRY[prop](tier))
+    extra = {}
+    from sa.cfg import CFG
+    if tier == 'thorough':
+        from sa import thorough
+        rules += thorough.EXTRA.get(prop, [])
+        CFG.CROSSCHECK = True
+        CFG.STATS.update({'paths_enumerated': 0, 'crosschecks': 0})
+    ctx, wall = engine.run_property(prop, rules, tier, overlay=overlay)
+    if tier == 'thorough':
+        CFG.CROSSCHECK = False
+        ctx.stats['paths'] += CFG.STATS['paths_enumerated']
+        extra['must_pass_through_crosschecks'] = dict(CFG.STATS)
+        if prop in ('C01', 'C07', 'C04') and overlay is None:
+            from sa import thorough
+            audit = thorough.audit_rulesets(os.path.join(engine.REPO, 'Rules'))
+            extra['shipped_ruleset_audit'] = {
+                'purpose': 'assumption evidence only (A2: lists sorted by non-increasing probability; config file lists = '
+                           'files present); data of /repo/Rules, never changes the verdict',
+                'rulesets': len(audit), 'files': sum(a.get('files', 0) for a in audit),
+                'unsorted_files': [f for a in audit for f in a.get('unsorted_files', [])][:20],
+                'config_list_mismatches': [dict(ruleset=a['ruleset'], **m) for a in audit for m in a.get('config_list_mismatch', [])][:20],
+            }
     viol, kn, unk, okc = engine.summarise(ctx, known)
     selftest = None
     if tier == 'thorough' and overlay is None and write:
@@ -42,7 +64,7 @@ def run_one(prop, tier, seed, overlay=None, write=True, quiet=False, jobs=1):
     if write:
         meta = dict(META[prop])
         meta['cmd'] = 'python3-vt sa/run.py --property %s --tier %s' % (prop, tier)
-        engine.write_evidence(prop, tier, seed, ctx, wall, known, meta, selftest=selftest)
+        engine.write_evidence(prop, tier, seed, ctx, wall, known, meta, selftest=selftest, extra=extra)
     if not quiet:
         print('property %s tier=%s: %d obligations, %d discharged, %d violation(s), %d known finding(s), '
               '%d inconclusive; %d functions analysed; %.2fs'
